@@ -41,3 +41,285 @@ pub(crate) fn walk<T, const MAXN: usize>(d: &Deque<T>) -> ([Option<NonNull<DeqNo
     ok &= d.len == cnt;
     (nodes, cnt, ok)
 }
+
+// =====================================================================================================
+// Harness family DQ: one operation of the intrusive list from an ARBITRARY well-formed list of
+// length L in 0..=4 (concrete per harness), symbolic cursor in {None, Node(i), Done}, symbolic
+// target node j. Inductive: post-state is again a well-formed list, so sequences of any length are
+// covered as far as every operation's neighbourhood looks like one in a list of <= 4 nodes
+// (a mutation touches the node, its two neighbours, head, tail, cursor).
+// Elements are drop-tracking: every element is dropped at most once, and exactly when specified.
+// =====================================================================================================
+use super::CacheRegion;
+
+static mut DROPPED: [u8; 8] = [0; 8];
+
+pub(crate) struct El(pub u8);
+impl Drop for El {
+    #[allow(static_mut_refs)]
+    fn drop(&mut self) {
+        unsafe {
+            DROPPED[self.0 as usize] += 1;
+        }
+    }
+}
+#[allow(static_mut_refs)]
+fn dropped(i: usize) -> u8 { unsafe { DROPPED[i] } }
+
+const M: usize = 5;
+
+struct L {
+    d: Deque<El>,
+    nodes: [Option<NonNull<DeqNode<El>>>; M],
+    len: usize,
+}
+
+/// list [0, 1, .., len-1] built with the real push_back; cursor symbolic.
+fn mk(len: usize) -> L {
+    let mut d: Deque<El> = Deque::new(CacheRegion::MainProbation);
+    let mut nodes = [None; M];
+    let mut i = 0;
+    while i < len {
+        nodes[i] = Some(d.push_back(Box::new(DeqNode::new(El(i as u8)))));
+        i += 1;
+    }
+    let c: u8 = kani::any();
+    kani::assume((c as usize) <= len + 1);
+    if (c as usize) < len {
+        d.cursor = Some(DeqCursor::Node(nodes[c as usize].unwrap()));
+    } else if c as usize == len {
+        d.cursor = Some(DeqCursor::Done);
+    } else {
+        d.cursor = None;
+    }
+    L { d, nodes, len }
+}
+
+/// expected order given as ids; 255 = end
+fn assert_order(d: &Deque<El>, exp: &[u8; M], n: usize) {
+    let (nodes, cnt, ok) = walk::<El, M>(d);
+    assert!(ok, "C08:DQ list well-formed after the operation (head/tail/prev/next/len)");
+    assert!(cnt == n, "C08:DQ number of nodes");
+    let mut i = 0;
+    while i < M {
+        if i < n {
+            let e = unsafe { &nodes[i].unwrap().as_ref().element };
+            assert!(e.0 == exp[i], "C12:DQ node order after the operation");
+        }
+        i += 1;
+    }
+}
+
+#[derive(Clone, Copy, PartialEq)]
+enum Cur { Nil, At(u8), Done }
+fn cur_of(l: &L) -> Cur {
+    match l.d.cursor {
+        None => Cur::Nil,
+        Some(DeqCursor::Done) => Cur::Done,
+        Some(DeqCursor::Node(n)) => Cur::At(unsafe { n.as_ref().element.0 }),
+    }
+}
+/// cursor after the node with id `j` (whose old successor has id `succ`, 255 = none) left its place
+fn cur_after_removal(c: Cur, j: u8, succ: u8) -> Cur {
+    match c {
+        Cur::At(x) if x == j => if succ == 255 { Cur::Done } else { Cur::At(succ) },
+        o => o,
+    }
+}
+fn assert_cursor(l: &L, exp: Cur) {
+    let got = cur_of(l);
+    assert!(got == exp, "C08:DQ cursor stays inside the list (advanced past a removed/moved node)");
+}
+fn no_drops(len: usize) {
+    let mut i = 0;
+    while i < M { if i < len + 1 { assert!(dropped(i) == 0, "C11:DQ no element dropped by this operation"); } i += 1; }
+}
+
+fn any_j(len: usize) -> usize {
+    let j: usize = kani::any();
+    kani::assume(j < len);
+    j
+}
+
+fn dq_move_to_back(len: usize) {
+    let mut l = mk(len);
+    let j = any_j(len);
+    let c0 = cur_of(&l);
+    unsafe { l.d.move_to_back(l.nodes[j].unwrap()) };
+    let mut exp = [255u8; M];
+    let mut k = 0; let mut i = 0;
+    while i < len { if i != j { exp[k] = i as u8; k += 1; } i += 1; }
+    exp[k] = j as u8;
+    assert_order(&l.d, &exp, len);
+    let expc = if j + 1 == len { c0 } else { cur_after_removal(c0, j as u8, (j + 1) as u8) };
+    assert_cursor(&l, expc);
+    no_drops(len);
+    if len > 1 { kani::cover!(j == 0, "move head"); }
+    kani::cover!(j + 1 == len, "move tail (no-op)");
+    kani::cover!(c0 == Cur::At(j as u8), "cursor on moved node");
+    std::mem::forget(l);
+}
+
+fn dq_unlink(len: usize, and_drop: bool) {
+    let mut l = mk(len);
+    let j = any_j(len);
+    let c0 = cur_of(&l);
+    let node = l.nodes[j].unwrap();
+    if and_drop { unsafe { l.d.unlink_and_drop(node) } } else { unsafe { l.d.unlink(node) } }
+    let mut exp = [255u8; M];
+    let mut k = 0; let mut i = 0;
+    while i < len { if i != j { exp[k] = i as u8; k += 1; } i += 1; }
+    assert_order(&l.d, &exp, len - 1);
+    assert_cursor(&l, cur_after_removal(c0, j as u8, if j + 1 < len { (j + 1) as u8 } else { 255 }));
+    let mut i = 0;
+    while i < len {
+        if and_drop && i == j { assert!(dropped(i) == 1, "C11:DQ unlink_and_drop drops the element exactly once"); }
+        else { assert!(dropped(i) == 0, "C11:DQ other elements not dropped"); }
+        i += 1;
+    }
+    if !and_drop {
+        // detached node is clean and not "contained"
+        let n = unsafe { node.as_ref() };
+        assert!(n.next.is_none() && n.prev.is_none(), "C08:DQ unlinked node has no dangling links");
+        assert!(!l.d.contains(n) , "C08:DQ contains() is false for an unlinked node");
+        unsafe { std::mem::forget(Box::from_raw(node.as_ptr())) };
+    }
+    kani::cover!(j == 0, "unlink head");
+    kani::cover!(j + 1 == len, "unlink tail");
+    kani::cover!(c0 == Cur::At(j as u8), "cursor on unlinked node");
+    std::mem::forget(l);
+}
+
+fn dq_pop_front(len: usize) {
+    let mut l = mk(len);
+    let c0 = cur_of(&l);
+    let b = l.d.pop_front();
+    if len == 0 {
+        assert!(b.is_none(), "C08:DQ pop_front on empty list is None");
+        assert_order(&l.d, &[255u8; M], 0);
+    } else {
+        let b = b.unwrap();
+        assert!(b.element.0 == 0 && b.next.is_none() && b.prev.is_none(), "C12:DQ pop_front returns the head, detached");
+        let mut exp = [255u8; M];
+        let mut i = 1;
+        while i < len { exp[i - 1] = i as u8; i += 1; }
+        assert_order(&l.d, &exp, len - 1);
+        assert_cursor(&l, cur_after_removal(c0, 0, if len > 1 { 1 } else { 255 }));
+        no_drops(len);
+        std::mem::forget(b);
+    }
+    std::mem::forget(l);
+}
+
+fn dq_push_back(len: usize) {
+    let mut l = mk(len);
+    let c0 = cur_of(&l);
+    let n = l.d.push_back(Box::new(DeqNode::new(El(len as u8))));
+    let mut exp = [255u8; M];
+    let mut i = 0;
+    while i <= len { exp[i] = i as u8; i += 1; }
+    assert_order(&l.d, &exp, len + 1);
+    assert_cursor(&l, c0);
+    assert!(l.d.contains(unsafe { n.as_ref() }), "C08:DQ contains() is true for a linked node");
+    no_drops(len + 1);
+    std::mem::forget(l);
+}
+
+fn dq_move_front_to_back(len: usize) {
+    let mut l = mk(len);
+    let c0 = cur_of(&l);
+    l.d.move_front_to_back();
+    let mut exp = [255u8; M];
+    if len > 0 {
+        let mut i = 1;
+        while i < len { exp[i - 1] = i as u8; i += 1; }
+        exp[len - 1] = 0;
+    }
+    assert_order(&l.d, &exp, len);
+    let expc = if len <= 1 { c0 } else { cur_after_removal(c0, 0, 1) };
+    assert_cursor(&l, expc);
+    no_drops(len);
+    std::mem::forget(l);
+}
+
+fn dq_iter_next(len: usize) {
+    let mut l = mk(len);
+    let c0 = cur_of(&l);
+    let got = { let mut r = &mut l.d; r.next().map(|e| e.0) };
+    // cursor semantics: None -> start at head; Node(i) -> yield i; Done -> None and reset
+    let (exp_el, exp_c) = match c0 {
+        Cur::Nil => if len == 0 { (None, Cur::Nil) } else { (Some(0u8), if len > 1 { Cur::At(1) } else { Cur::Done }) },
+        Cur::At(i) => (Some(i), if (i as usize) + 1 < len { Cur::At(i + 1) } else { Cur::Done }),
+        Cur::Done => (None, Cur::Nil),
+    };
+    assert!(got == exp_el, "C08:DQ iterator yields the element under the cursor");
+    assert_cursor(&l, exp_c);
+    let mut exp = [255u8; M];
+    let mut i = 0;
+    while i < len { exp[i] = i as u8; i += 1; }
+    assert_order(&l.d, &exp, len);
+    no_drops(len);
+    std::mem::forget(l);
+}
+
+fn dq_peek_contains(len: usize) {
+    let l = mk(len);
+    match l.d.peek_front() {
+        None => assert!(len == 0, "C08:DQ peek_front None iff empty"),
+        Some(n) => assert!(len > 0 && n.element.0 == 0, "C12:DQ peek_front is the head"),
+    }
+    assert!(l.d.peek_front_ptr() == l.d.head, "C12:DQ peek_front_ptr is the head");
+    let mut i = 0;
+    while i < len {
+        assert!(l.d.contains(unsafe { l.nodes[i].unwrap().as_ref() }), "C08:DQ contains() true for every member");
+        if i + 1 < len {
+            assert!(DeqNode::next_node_ptr(l.nodes[i].unwrap()) == l.nodes[i + 1], "C12:DQ next_node_ptr follows list order");
+        } else {
+            assert!(DeqNode::next_node_ptr(l.nodes[i].unwrap()).is_none(), "C12:DQ next_node_ptr of tail is None");
+        }
+        i += 1;
+    }
+    let fresh = DeqNode::new(El(7));
+    assert!(!l.d.contains(&fresh), "C08:DQ contains() false for a fresh node");
+    std::mem::forget(fresh);
+    std::mem::forget(l);
+}
+
+/// real drop glue of the list: every element dropped exactly once (C11), no double free (C08).
+fn dq_drop(len: usize) {
+    let l = mk(len);
+    let L { d, .. } = l;
+    drop(d);
+    let mut i = 0;
+    while i < M {
+        if i < len { assert!(dropped(i) == 1, "C11:DQ dropping the list drops every element exactly once"); }
+        i += 1;
+    }
+}
+
+macro_rules! dq {
+    ($f:ident, $($name:ident => ($($arg:expr),*)),*) => {
+        $( #[kani::proof] #[kani::unwind(7)] fn $name() { $f($($arg),*) } )*
+    };
+}
+dq!(dq_move_to_back, dq_mtb_1 => (1), dq_mtb_2 => (2), dq_mtb_3 => (3), dq_mtb_4 => (4));
+dq!(dq_unlink, dq_unlink_1 => (1, false), dq_unlink_2 => (2, false), dq_unlink_3 => (3, false), dq_unlink_4 => (4, false));
+dq!(dq_unlink, dq_unlinkdrop_1 => (1, true), dq_unlinkdrop_2 => (2, true), dq_unlinkdrop_3 => (3, true), dq_unlinkdrop_4 => (4, true));
+dq!(dq_pop_front, dq_pop_0 => (0), dq_pop_1 => (1), dq_pop_2 => (2), dq_pop_3 => (3), dq_pop_4 => (4));
+dq!(dq_push_back, dq_push_0 => (0), dq_push_1 => (1), dq_push_2 => (2), dq_push_3 => (3), dq_push_4 => (4));
+dq!(dq_move_front_to_back, dq_mftb_0 => (0), dq_mftb_1 => (1), dq_mftb_2 => (2), dq_mftb_3 => (3), dq_mftb_4 => (4));
+dq!(dq_iter_next, dq_next_0 => (0), dq_next_1 => (1), dq_next_2 => (2), dq_next_3 => (3), dq_next_4 => (4));
+dq!(dq_peek_contains, dq_peek_0 => (0), dq_peek_1 => (1), dq_peek_2 => (2), dq_peek_3 => (3), dq_peek_4 => (4));
+dq!(dq_drop, dq_drop_0 => (0), dq_drop_1 => (1), dq_drop_2 => (2), dq_drop_3 => (3), dq_drop_4 => (4));
+
+/// vacuity twin: the family's builder + walker reach the end (must FAIL).
+#[kani::proof]
+#[kani::unwind(7)]
+fn dq_twin_must_fail() {
+    let mut l = mk(3);
+    let j = any_j(3);
+    unsafe { l.d.move_to_back(l.nodes[j].unwrap()) };
+    let (_, cnt, ok) = walk::<El, M>(&l.d);
+    assert!(!(ok && cnt == 3), "VACUITY-TWIN: reached the end of the deque harness");
+    std::mem::forget(l);
+}
